@@ -51,6 +51,9 @@ def depthL (rk : Str → Nat) (l : List Str) : Nat := l.foldr (fun n a => max (r
 bound on the number of passes (`C14.passes_bounded`) -/
 def depth (rk : Str → Nat) (s : Str) : Nat := depthL rk (phNames s)
 
+/-- every entry of the table (shadowed ones too) uses lower-ranked macros only -/
+def rankedAllB (rk : Str → Nat) (m : Dict Str) : Bool := m.all fun kv => (phNames kv.2).all fun n => rk n < rk kv.1
+
 /-- every macro used by a body is defined -/
 def closedB (m : Dict Str) : Bool := m.all fun kv => (phNames kv.2).all fun n => (dget m n).isSome
 
